@@ -97,7 +97,11 @@ where
 
     #[inline]
     pub fn update_stored_len(&self, val: usize) {
+        #[cfg(feature = "verif")]
+        rawdb::verif::pause("stored_len:before");
         self.read_only.stored_len.set(val);
+        #[cfg(feature = "verif")]
+        rawdb::verif::pause("stored_len:after");
     }
 
     #[inline]
